@@ -50,7 +50,7 @@ func runAttackMonitor(c *Ctx, id string) int {
 		return attackReplay(c, run, id)
 	}
 
-	depth := c.Pick(6, 9)
+	depth := c.Pick(6, 10)
 	var specs []childSpec
 	for w := uint64(0); w <= 3; w++ {
 		for m := uint64(1); m <= 3; m++ {
@@ -96,7 +96,7 @@ func runAttackMonitor(c *Ctx, id string) int {
 		c03CLI(c, run)
 	}
 
-	run.Floor("quiescent_states", int64(c.Pick(20000, 400000)))
+	run.Floor("quiescent_states", int64(c.Pick(20000, 4000000)))
 	run.Floor("stress_results", 50000)
 	if id == "C02" {
 		run.Floor("stop_histories_checked", int64(c.Pick(1500, 40000)))
@@ -104,7 +104,7 @@ func runAttackMonitor(c *Ctx, id string) int {
 	} else {
 		run.Floor("cap_checks_at_transport_entry", 50000)
 	}
-	run.FloorDistinct(c.Pick(2000, 50000))
+	run.FloorDistinct(c.Pick(2000, 500000))
 	return run.Finish()
 }
 
